@@ -165,7 +165,7 @@ def run(ctx):
         ctx.ob("C16.G.one-entry-per-variant-in-order", f.key, "from_variant once per variant of variants.iter()", ok, "%s" % [(h["form"], h["source"][:140]) for h in hs])
     f = ctx.fn("darling_core::ast::data::Fields::<F>::try_from")
     if f:
-        hs = ctx.per_element(f, r"FromField(>)?::from_field$")
+        hs = ctx.per_element(f, r"FromField(>)?::from_field$", helpers=1)
         srcs = sorted(re.sub(r".*iter\(", "iter(", h["source"]) for h in hs)
         ctx.ob("C16.G.one-entry-per-field-in-order", f.key, "named.iter() / unnamed.iter()", srcs == ["iter((a1 as Named).0.named)", "iter((a1 as Unnamed).0.unnamed)"] and all(h["form"] in ("adapter", "loop") for h in hs), "%s" % srcs)
         # each conversion stands in the arm of its own field kind
